@@ -1155,6 +1155,20 @@ func (e *CEnv) call(n *ast.CallExpr) *Val {
 			}
 		}
 		return e.intConst(big.NewInt(int64(k)))
+	case "first", "last":
+		// first("Short") / last("Short"): index (within this call's events) of the first / last event named Short, or -1
+		name := e.strArg(n.Args[0])
+		idx := -1
+		for i := e.traceBase; i < len(st.trace); i++ {
+			ev := &st.trace[i]
+			if ev.Short == name || strings.HasSuffix(ev.Callee, "."+name) || ev.Callee == name {
+				idx = i - e.traceBase
+				if fname == "first" {
+					break
+				}
+			}
+		}
+		return e.intConst(big.NewInt(int64(idx)))
 	case "evis":
 		// evis(k, "Short") : the k-th event of this call is a call of Short
 		if len(n.Args) != 2 {
